@@ -31,6 +31,7 @@ CheckReq(line, ev) ==
         /\ Chk(line, C09Alone(cfg, req, resp), "C09.alone", <<ev.ran, ev.later>>)
         /\ Chk(line, C09Refuse(cfg, req, resp, routable), "C09.refuse", ev.ac)
         /\ Chk(line, C09Grant(cfg, req, resp, routable), "C09.grant", ev.ac)
+        /\ Chk(line, C09Headers(cfg, resp), "C09.grant", <<"header not allowed", ev.ac>>)
         /\ Chk(line, C09Actual(cfg, req, resp, ev.twin), "C09.actual", ev.ac)
      /\ IF req.origin # "" /\ ~OriginAllowed(cfg, req.origin) THEN Bump(3) ELSE TRUE
      /\ IF OriginAllowed(cfg, req.origin) THEN Bump(4) ELSE TRUE
